@@ -225,6 +225,7 @@ func cmdVerify(args []string) int {
 	prop := fs.String("p", "", "only obligations of this property")
 	paths := fs.Bool("paths", false, "for failing obligations, report which control-flow paths fail")
 	only := fs.String("o", "", "only obligations whose name contains this")
+	vac := fs.Bool("vac", false, "also run the vacuity guards")
 	fs.Parse(args)
 	if err := initWorkDir(); err != nil {
 		fmt.Fprintln(os.Stderr, err)
@@ -238,6 +239,11 @@ func cmdVerify(args []string) int {
 	}
 	for _, d := range gr.drift {
 		fmt.Println("DRIFT:", d)
+	}
+	if *vac {
+		for _, v := range vacuityChecks(gr, "") {
+			fmt.Println("VACUOUS:", v)
+		}
 	}
 	obls := gr.obls
 	for _, l := range gr.lemmas {
